@@ -46,7 +46,7 @@ func vStartServer(name string, mod func(*Config)) *vServer {
 	cfg.EmbeddedNATS = true
 	cfg.EmbeddedNATSConfig = natsConf
 	cfg.NATS.Servers = []string{fmt.Sprintf("nats://127.0.0.1:%d", natsPort)}
-	cfg.LogSilent = true
+	cfg.LogSilent = os.Getenv("VERIF_LOG") == ""
 	cfg.Host = "127.0.0.1"
 	cfg.Port = vFreePort()
 	cfg.Telemetry.Enabled = false
